@@ -136,6 +136,10 @@ def parse_print_json(out, tag):
     return res
 
 
+import threading
+_copy_lock = threading.Lock()
+
+
 class _Slots:
     """Machine-wide CPU budget for TLC processes (several checks may run side by side): a run with w workers
     holds w of NSLOTS lock files for its duration."""
@@ -178,8 +182,11 @@ def tlc(module, cfg, scratch, env=None, workers=None, timeout=1800, args=(), hea
     Returns TLCResult.  Raises Infra on timeout or a TLC/Java error that is not a
     property verdict (rc not in {0, 10, 11, 12, 13})."""
     wd = os.path.join(scratch, "spec")
-    if not os.path.isdir(wd):
-        shutil.copytree(SPEC, wd, ignore=shutil.ignore_patterns("states", ".tlacache"))
+    with _copy_lock:      # drivers call tlc() from several threads
+        if not os.path.isdir(wd):
+            tmp = wd + ".tmp%d" % time.time_ns()
+            shutil.copytree(SPEC, tmp, ignore=shutil.ignore_patterns("states", ".tlacache"))
+            os.rename(tmp, wd)
     if files:
         for k, v in files.items():
             with open(os.path.join(wd, k), "w") as f:
